@@ -232,10 +232,11 @@ def update_connectivity(
     dtype = connectivity.encoding.get('dtype', connectivity.dtype)
 
     if dtype.kind == 'i':
-        # Ensure the fill value fits within the representable integers
-        max_representable = numpy.iinfo(dtype).max
-        if max_representable < fill_value:
-            fill_value = max_representable
+        # Ensure the fill value fits within the representable integers.
+        # The largest representable integer can itself be an element number
+        # when the table is full; a negative value never is.
+        if numpy.iinfo(dtype).max < fill_value:
+            fill_value = numpy.iinfo(dtype).min
 
     # Entries that refer to an element which is being dropped
     # (such as the neighbour of a face on the new boundary)
